@@ -557,6 +557,13 @@ func (r *rewriter) post(c *astutil.Cursor) bool {
 			if n.Sel.Name == "Select" {
 				fatalf("%s: reflect.Select is not supported by the simulator", r.site(n))
 			}
+		case r.isPkg(n.X, "runtime"):
+			// behaviour that depends on the garbage collector or on OS threads is
+			// outside the simulator's seams: say "cannot decide" (exit 2) rather
+			// than pass such code as if it had been explored
+			if n.Sel.Name == "SetFinalizer" || n.Sel.Name == "AddCleanup" || n.Sel.Name == "LockOSThread" {
+				fatalf("%s: runtime.%s is not supported by the simulator (object lifetime under the garbage collector / OS threads are not under its control)", r.site(n), n.Sel.Name)
+			}
 		}
 	}
 	return true
